@@ -134,6 +134,7 @@ package resource_share
 //@   ensures result != nil && result == qrs.lastDeservedShare
 //@   ensures result["CPU"] == qrs.CPU.Deserved && result["Memory"] == qrs.Memory.Deserved && result["GPU"] == qrs.GPU.Deserved
 //@   ensures cacheOK(qrs)
+//@   ensures [cacheKeptOrNew] qrs.lastDeservedShare == old(qrs.lastDeservedShare) || fresh(qrs.lastDeservedShare)
 //@ end
 
 //@ func (*QueueResourceShare).GetFairShare
@@ -143,6 +144,7 @@ package resource_share
 //@   ensures result != nil && result == qrs.lastFairShare
 //@   ensures result["CPU"] == qrs.CPU.FairShare && result["Memory"] == qrs.Memory.FairShare && result["GPU"] == qrs.GPU.FairShare
 //@   ensures cacheOK(qrs)
+//@   ensures [cacheKeptOrNew] qrs.lastFairShare == old(qrs.lastFairShare) || fresh(qrs.lastFairShare)
 //@ end
 
 //@ func (*QueueResourceShare).AddResourceShare
